@@ -438,6 +438,7 @@ func runC04(e *Engine, r *Report) {
 	ruleTanNewLogOrder(e, r)
 	ruleReplaySetsState(e, r)
 	ruleSnapshotRecordKeepsLogEnd(e, r)
+	ruleTanFileInUse(e, r)
 }
 
 // runPebbleSync: every pebble write in the kv wrapper takes the options value
